@@ -29,6 +29,9 @@ struct SchedStats {
   long long maxSwitchesInStep = 0;
   long long choicesConsumed = 0;
   long long freeDelays = 0;
+  long long childFirstStarts = 0;    // thread creations where the new thread was run first
+  long long creatorFirstStarts = 0;  // ... where its creator was run first
+  long long startOrderTimeouts = 0;  // child-first waits that timed out (must stay 0)
   uint64_t grantHash = 0;        // hash chain of (worker, site) in grant order
   uint64_t stepSigHash = 0;      // hash over per-step interleaving signatures
 };
